@@ -5,6 +5,10 @@ from python_minifier.rename.util import builtins, get_global_namespace, get_nonl
 
 
 def get_binding(name, namespace):
+    if isinstance(namespace, ast.Module) and name in ['exec', 'eval', 'locals', 'globals', 'vars']:
+        # This may be the builtin, even if the module also binds the name (eval = eval, global eval)
+        namespace.tainted = True
+
     if name in namespace.global_names and not isinstance(namespace, ast.Module):
         return get_binding(name, get_global_namespace(namespace))
     elif name in namespace.nonlocal_names and not isinstance(namespace, ast.Module):
